@@ -1,7 +1,7 @@
 (* Property C11: clean exit: once a run is over, nothing it started is still running.
    Only property theorems here. Model R, level 0 for the jobs; handlers: see below. *)
 From AJ Require Import Common.Util Run.RModel Run.RFacts Run.RFacts2 Run.RInv Run.RInv4 Run.RInv5 Run.RMon Run.RProps1
-  Run.RProps2 Run.RProps3 Props.RExample.
+  Run.RProps2 Run.RProps3 Props.RExample Run.RWin Run.RProps4 Run.RShut1 Run.RShut2 Run.RTime Run.RProps5.
 
 (* When the run of scheduler n is over -- by success, critical failure, timeout, or because the
    enclosing scheduler cancelled it -- no job below n, at any nesting depth, is waiting for a slot,
@@ -44,15 +44,23 @@ Proof.
 Qed.
 Print Assumptions C11_accepted_histories.
 
-(* Not proved as a theorem yet: the same for the co_shutdown() handler tasks (every handler task
-   below n is finished when the run of n is over).  It is enforced on every implementation
-   history: acceptance at level 3 requires the final state to be [terminal] (root over, nothing
-   enabled, no live deadline), and the harness additionally lets the loop run on after run()
+(* the same for the co_shutdown() handler tasks: when a run ends through its shutdown phase its
+   broadcast is over, and when the broadcast of n is over every handler task below n is finished
+   (level 3; see C13) *)
+Theorem C11_run_end_is_broadcast_end : forall lvl c h s e s' n, wf c = true -> 3 <= lvl -> Reach lvl c h s ->
+  step lvl c s e = Some s' -> sd_inline s n = true -> sd_inline s' n = false ->
+  ph (Rn s' n) = POver /\ sp (Sd s' n) = SdOver.
+Proof. exact inline_end_over. Qed.
+Print Assumptions C11_run_end_is_broadcast_end.
+
+Theorem C11_handlers_finished : forall lvl c h s n x, wf c = true -> 3 <= lvl -> Reach lvl c h s ->
+  sp (Sd s n) = SdOver -> x < njobs c -> below c n x = true -> hfin s x = true.
+Proof. exact shutdown_complete. Qed.
+Print Assumptions C11_handlers_finished.
+
+(* On the implementation: acceptance at level 3 requires the final state to be [terminal] (root
+   over, nothing enabled, no live deadline), and the harness lets the loop run on after run()
    returned and requires that no event is logged and no task is left. *)
-Definition C11_handlers_full_statement : Prop :=
-  forall c h s n x, wf c = true -> Reach 3 c h s -> ph (Rn s n) = POver ->
-    x < njobs c -> (below c n x = true \/ x = n) ->
-    match hs (Hd s x) with HCreated | HRunning => False | _ => True end.
 
 Example C11_nonvacuous :
   accept 3 ex_cfg ex_hist = true /\
